@@ -28,6 +28,61 @@ def checksum(hrp, data, const=1):
     return [(pm >> 5 * (5 - i)) & 31 for i in range(6)]
 
 
+def steer_program(hrp, witver, prog, target):
+    """A program of the same length as `prog`, equal to it except in its last six complete 5-bit groups, whose BIP173
+    checksum groups are exactly `target` (six 5-bit values).  The checksum is affine in the data bits,
+    so the 30 bits are found by solving a 30x30 system over GF(2).  None if the system is singular or
+    the program is shorter than 4 bytes."""
+    n = len(prog)
+    if n < 4:
+        return None
+    nbits = 8 * n
+    full = nbits // 5                          # complete 5-bit groups of the program
+    sh = nbits - 5 * full                      # bits of the trailing partial group (left alone)
+    base = int.from_bytes(prog, 'big') & ~(((1 << 30) - 1) << sh)
+
+    def cs(v):
+        data = [witver] + to5(v.to_bytes(n, 'big'))
+        c = checksum(hrp, data)
+        out = 0
+        for g in c:
+            out = (out << 5) | g
+        return out
+    c0 = cs(base)
+    cols = [cs(base | (1 << (j + sh))) ^ c0 for j in range(30)]
+    want = 0
+    for g in target:
+        want = (want << 5) | (g & 31)
+    want ^= c0
+    # Gaussian elimination: rows = checksum bits, unknowns = the 30 free bits
+    rows = []
+    for i in range(30):
+        r = 0
+        for j in range(30):
+            if (cols[j] >> i) & 1:
+                r |= 1 << j
+        rows.append(r | (((want >> i) & 1) << 30))
+    piv = []
+    rank = 0
+    for j in range(30):
+        k = next((q for q in range(rank, 30) if (rows[q] >> j) & 1), None)
+        if k is None:
+            return None
+        rows[rank], rows[k] = rows[k], rows[rank]
+        for q in range(30):
+            if q != rank and (rows[q] >> j) & 1:
+                rows[q] ^= rows[rank]
+        piv.append(j)
+        rank += 1
+    x = 0
+    for q, j in enumerate(piv):
+        if (rows[q] >> 30) & 1:
+            x |= 1 << j
+    out = (base | (x << sh)).to_bytes(n, 'big')
+    assert checksum(hrp, [witver] + to5(out)) == [g & 31 for g in target]
+    return out
+
+
 def to5(data):
     acc = bits = 0
     out = []
